@@ -246,7 +246,7 @@ func (s *server) replay(data []uint32) (res *RunResult, crashed bool, crashText 
 	go func() {
 		select {
 		case <-done:
-		case <-time.After(120 * time.Second):
+		case <-time.After(150 * time.Second):
 			timedOut = true
 			s.cmd.Process.Kill()
 		}
@@ -263,9 +263,9 @@ func (s *server) replay(data []uint32) (res *RunResult, crashed bool, crashText 
 			close(done)
 			return &r, false, ""
 		}
-		if strings.HasPrefix(line, "@@ERR ") {
+		if strings.HasPrefix(line, "@@ERR ") && !strings.Contains(line, "watchdog") {
 			trouble("replay worker: %s", line)
-		}
+		} // a watchdog exit is handled like a crash below: the stacks on stderr say whose fault it is
 		if len(line) > 0 && !strings.HasPrefix(line, "@@") {
 			tail = append(tail, strings.TrimRight(line, "\n"))
 			if len(tail) > 40 {
@@ -337,7 +337,34 @@ func loadFindings() []finding {
 	return out
 }
 
+// codeMutexDeadlock: the watchdog dump shows a goroutine of the code under test waiting for a
+// sync.Mutex inside the bubble (which can never become "durably blocked", so the simulator cannot
+// step on). Returns the innermost morlock frame of that goroutine.
+func codeMutexDeadlock(text string) (string, bool) {
+	if !strings.Contains(text, "WATCHDOG") {
+		return "", false
+	}
+	for _, blk := range strings.Split(text, "\n\n") {
+		if !strings.Contains(blk, "synctest bubble") || !strings.Contains(blk, "sync.(*Mutex).Lock") {
+			continue
+		}
+		for _, l := range strings.Split(blk, "\n") {
+			t := strings.TrimSpace(l)
+			if strings.HasPrefix(t, "github.com/herohde/morlock/") {
+				if i := strings.Index(t, "("); i > 0 {
+					t = t[:i]
+				}
+				return t, true
+			}
+		}
+	}
+	return "", false
+}
+
 func crashKind(text string) (string, string) {
+	if fr, ok := codeMutexDeadlock(text); ok {
+		return "mutex-deadlock", "a goroutine of the code under test waits for ever for a mutex in " + fr + " (its holder waits for that goroutine): the simulator made no step for 90 s"
+	}
 	// classify a dead worker by the panic message / race report, stable across runs
 	for _, l := range strings.Split(text, "\n") {
 		l = strings.TrimSpace(l)
@@ -451,6 +478,15 @@ func main() {
 				if wo.errLine != "" {
 					mu.Unlock()
 					if strings.Contains(wo.errLine, "watchdog") {
+						if _, ok := codeMutexDeadlock(wo.stderr); ok && spec.CrashIsViolation && wo.lastBegin >= 0 {
+							// the code under test deadlocked on one of its own mutexes: a verdict, not harness trouble
+							mu.Lock()
+							k, msg := crashKind(wo.stderr)
+							crashes = append(crashes, Found{Index: uint64(wo.lastBegin), Seed: tape.Derive(seed, prop, uint64(wo.lastBegin)),
+								V: []Violation{{Prop: prop, Kind: k, Detail: msg}}, Trace: tailLines(wo.stderr, 60)})
+							mu.Unlock()
+							return
+						}
 						trouble("worker: %s\n%s", wo.errLine, strings.Join(tailLines(wo.stderr, 60), "\n"))
 					}
 					trouble("worker: %s", wo.errLine)
@@ -496,12 +532,18 @@ func main() {
 
 	// ---- crashes: recover the tape of the crashed run ----
 	crashDiscarded := 0
+	sort.Slice(crashes, func(a, b int) bool { return crashes[a].Index < crashes[b].Index })
+	tapeDone := map[string]bool{}
 	for i := range crashes {
 		c := &crashes[i]
-		tp := recoverTape(prop, seed, c.Index)
-		c.Tape = tp
 		if !spec.CrashIsViolation {
 			crashDiscarded++
+			continue
+		}
+		// only the earliest crash of each kind is minimised and reported: recover only its tape
+		if k := c.V[0].Kind; !tapeDone[k] {
+			tapeDone[k] = true
+			c.Tape = recoverTape(prop, seed, c.Index)
 		}
 	}
 	if spec.CrashIsViolation {
@@ -562,7 +604,7 @@ func main() {
 			if ok {
 				reproduced = true
 				minRes, minV = r, v
-				if !*noShrink {
+				if !*noShrink && k != "mutex-deadlock" {
 					budgetD := 45 * time.Second
 					if *tier == "thorough" {
 						budgetD = 120 * time.Second
@@ -620,7 +662,7 @@ func main() {
 		}
 		path := filepath.Join(verifDir, "replays", fmt.Sprintf("%s-%s-%d.json", prop, sanitize(k), g.first.Index))
 		var crashReport []string
-		if k == "crash" {
+		if k == "crash" || k == "mutex-deadlock" {
 			// the process died: fetch the decoded trace up to the crash through the trace side file
 			crashReport = minRes.Trace
 			minRes = &RunResult{Trace: traceOfCrash(prop, min)}
